@@ -58,7 +58,7 @@ func run(b kit.Batch, r *kit.R) {
 	var p params
 	b.P(&p)
 	r.ForEach(b.N, func(c *kit.Case) {
-		cfg := sim.RandomStackCfg(c.Rng, sim.GenOpts{NumReqs: p.NumReqs, AllowDRAM: true, AllowBanked: true, MaxDrivers: 3, ZeroLat: p.ZeroLat})
+		cfg := sim.RandomStackCfg(c.Rng, sim.GenOpts{NumReqs: p.NumReqs, AllowDRAM: true, AllowBanked: true, MaxDrivers: 3, ZeroLat: p.ZeroLat, RspStall: true})
 		c.Desc(cfg)
 		RunStack(c, cfg)
 	})
